@@ -237,6 +237,7 @@ func runC05(c *Check) {
 	sp.segs = append(sp.segs, segCtxOp(usableCtxs(), all))
 	sp.segs = append(sp.segs, segLvals(pickCtx("return", "stmt", "for-of"), all, xLvals))
 	sp.segs = append(sp.segs, c05TemplateSpace(c05Trees(c.Tier)))
+	sp.segs = append(sp.segs, c05CaptureSpace(c.Tier))
 	if c.Tier == "quick" {
 		sp.segs = append(sp.segs, segPairs("return*lower-op*slot*reduced", pickCtx("return"), lowerOps, red))
 		sp.segs = append(sp.segs, segPairs("return*reduced*slot*lower-op", pickCtx("return", "stmt"), red, lowerOps))
@@ -273,6 +274,10 @@ func c05Classify(exp, got, input string) []string {
 			keys["lowered-rest-assignment-target-evaluated-before-right-hand-side"] = true
 		case strings.Contains(input, "function(x = ") && strings.Contains(input, "?.") && gres == "throw=ReferenceError":
 			keys["lowered-optional-chain-in-default-parameter-references-out-of-scope-temporary"] = true
+		case strings.Contains(input, "async (") && strings.Contains(input, "new.target") && strings.HasSuffix(eres, "ret=true") && strings.HasSuffix(gres, "ret=false"):
+			keys["lowered-async-arrow-loses-new-target"] = true
+		case strings.Contains(input, "async (") && strings.Contains(input, "super") && eres != gres && strings.Replace(eres, ",true]", ",false]", 1) == gres:
+			keys["lowered-async-arrow-super-access-receives-no-this"] = true
 		case strings.Contains(input, "new.target") && strings.Contains(input, "class"):
 			keys["lowered-class-field-initializer-sees-constructor-new-target"] = true
 		case strings.Contains(input, "class { static x = ") && strings.Contains(input, "[this,"):
